@@ -39,7 +39,15 @@ def _text_worker(args):
         ev = {'id': tid, 'len': len(text), 'cls': 'ok', 'haspos': 0, 'pos': 0, 'endpos': 0, 'line': 0, 'nlines': 0,
               'linestart': 0, 'lineend': 0, 'render': 1}
         try:
-            conn.execute(text).fetchall()
+            from beanquery import parser as _parser
+            stmt = _parser.parse(text)
+            if isinstance(stmt, _parser.ast.Print):
+                # PRINT is a valid statement that the DB-API cursor cannot execute (the shell prints it: C14 / C19);
+                # not a rejection of the statement -- outside this property's domain, skipped and counted
+                ev['skipped'] = 'print-via-cursor'
+                out.append(ev)
+                continue
+            conn.execute(stmt).fetchall()
         except Exception as ex:  # noqa
             ev['cls'] = type(ex).__name__
             import re as _re
